@@ -76,6 +76,13 @@ def _measure_emits(model: Model, fname: str, module: str = CC):
     return f, ev, ps
 
 
+def _unread_emits(name: str, es) -> None:
+    """Operations that reach add() through a generator / helper are not read as 'no measurement'."""
+    if not es or any(e.cls is None and (not e.loops or "localdef" in show(e.loops[-1]) or "fn" in show(e.loops[-1])[:6]) for e in es):
+        if not any(e.cls == "DispersiveMeasure" for e in es):
+            raise AnalysisError(f"{name}: what is added is produced by a generator / helper and not read as a sequence of operations")
+
+
 def m1(model: Model, rep: Report):
     rep.rule("C13.M1", "acquisitions per ancilla in one round block = 1 (heralded, every measured qubit) + sum over sub-circuits of repetitions x 1 (one 'parity' measurement per measured "
                        "ancilla per round) [+ 1 'final' ancilla measurement for 0 cycles] == RepetitionIndexKernel.kernel_length with heralded initialisation, for cycles 0..8 and k+9; "
@@ -84,6 +91,7 @@ def m1(model: Model, rep: Report):
     f, ev, ps = _measure_emits(model, "get_circuit_initialize_with_heralded")
     her = 0
     for p in [q for q in ps if q.exit == "return"]:
+        _unread_emits("get_circuit_initialize_with_heralded", emits(p, p.value))
         ms = [e for e in emits(p, p.value) if e.cls == "DispersiveMeasure"]
         ok = len(ms) == 1 and len(ms[0].loops) == 1 and "measure_qubit_indices" in show(ms[0].loops[0]) and ms[0].field("acquisition_tag") == ("const", "heralded") and not atoms_of(ms[0].cond)
         her = 1 if ok else -1
@@ -94,6 +102,7 @@ def m1(model: Model, rep: Report):
     for name in ("get_circuit_qec_round", "get_circuit_qec_round_with_dynamical_decoupling"):
         g, evg, gps = _measure_emits(model, name)
         for p in [q for q in gps if q.exit == "return"]:
+            _unread_emits(name, emits(p, p.value))
             ms = [e for e in emits(p, p.value) if e.cls == "DispersiveMeasure"]
             ok = len(ms) == 1 and len(ms[0].loops) == 1 and "measure_ancilla_qubit_indices" in show(ms[0].loops[0]) and ms[0].field("acquisition_tag") == ("const", "parity") and not atoms_of(ms[0].cond)
             per_round[name] = 1 if ok else -1
@@ -102,6 +111,7 @@ def m1(model: Model, rep: Report):
     # final measurement: data qubits only
     h, evh, hps = _measure_emits(model, "get_circuit_final_measurement")
     for p in [q for q in hps if q.exit == "return"]:
+        _unread_emits("get_circuit_final_measurement", emits(p, p.value))
         ms = [e for e in emits(p, p.value) if e.cls == "DispersiveMeasure"]
         ok = len(ms) == 1 and len(ms[0].loops) == 1 and "measure_data_qubit_indices" in show(ms[0].loops[0]) and ms[0].field("acquisition_tag") == ("const", "final")
         rep.check(ok, "C13.M1", "get_circuit_final_measurement[data qubits only]", h.loc, found=[repr(m) for m in ms], required="one 'final' DispersiveMeasure per connectivity.measure_data_qubit_indices",
